@@ -178,6 +178,20 @@ func (x *hpTr) block(c *hpCtx, list []ast.Stmt, k hpCont) (string, error) {
 	s := list[0]
 	rest := func(c *hpCtx) (string, error) { return x.block(c, list[1:], k) }
 	if kind := x.ignorable(c, s); kind != "" {
+		if strings.HasPrefix(kind, "session effect") {
+			// the model reads the session oracles in the pre-state: pin where the update stands relative to the modelled statements
+			next := "end of block"
+			for _, t := range list[1:] {
+				if x.ignorable(c, t) == "" {
+					next = hpSrc(t)
+					if len(next) > 50 {
+						next = next[:50] + "…"
+					}
+					break
+				}
+			}
+			kind += ", before `" + next + "`"
+		}
 		x.ignore(c.f, kind, s)
 		return rest(c)
 	}
